@@ -14,6 +14,8 @@ mod fskit;
 mod simkit;
 #[cfg(feature = "kit-wire")]
 mod wirekit;
+#[cfg(feature = "kit-wire2")]
+mod wirekit2;
 mod props;
 
 use core::{Options, Tier};
